@@ -357,8 +357,8 @@ WN_EVERY = 5  # every 5th bucket holds a weight-normalised family (bnaf / tri_sp
 
 
 NAMED_SWEEP_EVERY = 8  # C18 only: among the non-weight-normalised buckets every 8th is a named-family sweep bucket
-NAMED_SWEEP = ["Logistic", "StudentT", "Gumbel", "Cauchy", "Laplace", "Normal", "Exponential", "LogNormal", "Uniform", "MultivariateNormal",
-               "VmapMixture", "MixShiftedLogNormal"]
+NAMED_SWEEP = ["Logistic", "MixShiftedLogNormal", "VmapMixture", "StudentT", "Uniform", "Gumbel", "Exponential", "LogNormal", "Cauchy", "Laplace",
+               "MultivariateNormal", "Normal"]
 # "lo" / "hi" resolve to the family's own support boundaries where it has any (Uniform minval / maxval, 0 for Exponential and LogNormal)
 SWEEP_SYMBOLS = ["big", "-big", "huge", "-huge", "0", "tiny", "out_lo", "out_hi", "1", "-1", "lo", "hi"]
 
@@ -380,13 +380,16 @@ def _route(prop, idx):
 
 
 def _c18_sweep_world(tier, seed, idx, sb, ridx):
-    """Named-family sweep (C18): bucket sb trains family sb mod 12 by maximum likelihood; run k of the bucket carries one
-    fault row whose chosen coordinate is the k-th value of a fixed list of large / boundary / out-of-support values."""
+    """Named-family sweep (C18): bucket sb trains TWO families (2 sb and 2 sb + 1, mod 12) by maximum likelihood, six runs
+    each; a run carries one fault row whose chosen coordinate is one value of a fixed list of twelve large / boundary /
+    out-of-support values (one half of the list per pass over the twelve families, the other half on the next pass)."""
     K = K_BUCKET["C18"]
-    k = ridx % K
+    k0 = ridx % K
     r = rng_for(seed, "C18", tier, "sweeprun", ridx)
-    rb = rng_for(seed, "C18", tier, "sweepbucket", sb)
-    name = NAMED_SWEEP[sb % len(NAMED_SWEEP)]
+    fam = (2 * sb + (k0 % 2)) % len(NAMED_SWEEP)
+    rb = rng_for(seed, "C18", tier, "sweepbucket", sb, fam)
+    name = NAMED_SWEEP[fam]
+    k = (k0 // 2 + 6 * ((sb // 6) % 2)) % K
     dim = rb.choice([0, 2]) if name in ("VmapMixture", "MixShiftedLogNormal") else (rb.choice([1, 2, 3]) if name == "MultivariateNormal" else rb.choice([0, 1, 2]))
     base = {"kind": "named", "name": name, "dim": dim, "lo": 1e-2, "hi": 1e2}
     w = {"engine": "B", "prop": "C18", "model": _fill_values(base, r), "freeze": [], "loop": "data", "loss": "mle", "opt": rb.choice(["sgd", "adam"]),
